@@ -56,6 +56,15 @@ pub fn materialise(root: &Path, files: &mut [J]) -> Result<(), String> {
         }
         match kind.as_str() {
             "dir" => std::fs::create_dir_all(&p).map_err(|e| format!("mkdir {rel}: {e}"))?,
+            "fifo" => {
+                let st = std::process::Command::new("mkfifo").arg(&p).status().map_err(|e| format!("mkfifo {rel}: {e}"))?;
+                if !st.success() {
+                    return Err(format!("mkfifo {rel} failed"));
+                }
+            }
+            "socket" => {
+                std::os::unix::net::UnixListener::bind(&p).map_err(|e| format!("socket {rel}: {e}"))?;
+            }
             "symlink" => {
                 let t = f.get("target").and_then(J::as_str).ok_or("symlink without target")?;
                 std::os::unix::fs::symlink(t, &p).map_err(|e| format!("symlink {rel}: {e}"))?;
@@ -82,7 +91,7 @@ pub fn materialise(root: &Path, files: &mut [J]) -> Result<(), String> {
 
 /// Own directory walk, following symlinks (with a depth guard), sorted by name.
 fn list_dir(root: &Path, rel: &mut Vec<String>, out: &mut Vec<(Vec<String>, bool)>, depth: usize) {
-    if depth > 12 {
+    if depth > 80 {
         return;
     }
     let dir = rel.iter().fold(root.to_path_buf(), |p, s| p.join(s));
@@ -97,38 +106,39 @@ fn list_dir(root: &Path, rel: &mut Vec<String>, out: &mut Vec<(Vec<String>, bool
                 out.push((rel.clone(), false));
                 list_dir(root, rel, out, depth + 1);
             }
-            Ok(_) => out.push((rel.clone(), true)),
+            Ok(md) if md.is_file() => out.push((rel.clone(), true)),
+            // FIFOs, sockets, devices: neither a file nor a directory (never read by this walk)
+            Ok(_) => out.push((rel.clone(), false)),
             Err(_) => {}
         }
         rel.pop();
     }
 }
 
-fn str_list(v: Option<&serde_yaml::Value>) -> Option<Vec<String>> {
-    match v {
-        None => Some(vec![]),
-        Some(serde_yaml::Value::Sequence(s)) => s.iter().map(|x| x.as_str().map(str::to_string)).collect(),
-        _ => None,
-    }
+/// The document shape the implementation deserialises a class/node file into (serde_yaml is a
+/// library below the model): string lists keep the source text of plain scalars (`1.10`, `True`).
+#[derive(serde::Deserialize)]
+struct FileDoc {
+    #[serde(default)]
+    applications: Vec<String>,
+    #[serde(default)]
+    classes: Vec<String>,
+    #[serde(default)]
+    parameters: serde_yaml::Mapping,
 }
 
 /// Post-YAML content of a class/node file as the model consumes it, or `{"bad": why}`.
 fn parsed_content(p: &Path) -> J {
     let Ok(text) = std::fs::read_to_string(p) else { return json!({"bad": "unreadable"}) };
-    let Ok(doc) = serde_yaml::from_str::<serde_yaml::Value>(&text) else { return json!({"bad": "invalid yaml"}) };
-    let serde_yaml::Value::Mapping(m) = doc else { return json!({"bad": "document is not a mapping"}) };
-    let Some(classes) = str_list(m.get("classes")) else { return json!({"bad": "classes is not a list of strings"}) };
-    let Some(apps) = str_list(m.get("applications")) else { return json!({"bad": "applications is not a list of strings"}) };
-    let params = match m.get("parameters") {
-        None => serde_yaml::Mapping::new(),
-        Some(serde_yaml::Value::Mapping(pm)) => pm.clone(),
-        _ => return json!({"bad": "parameters is not a mapping"}),
+    let doc: FileDoc = match serde_yaml::from_str(&text) {
+        Ok(d) => d,
+        Err(e) => return json!({"bad": format!("invalid document: {e}")}),
     };
-    let merged = match yaml_merge_keys::merge_keys_serde(serde_yaml::Value::Mapping(params)) {
+    let merged = match yaml_merge_keys::merge_keys_serde(serde_yaml::Value::Mapping(doc.parameters)) {
         Ok(v) => v,
         Err(_) => return json!({"bad": "merge keys"}),
     };
-    json!({"apps": apps, "classes": classes, "params": json_of_yaml(&merged)})
+    json!({"apps": doc.applications, "classes": doc.classes, "params": json_of_yaml(&merged)})
 }
 
 fn listing_json(root: &Path) -> J {
@@ -151,7 +161,7 @@ fn listing_json(root: &Path) -> J {
 }
 
 pub fn make_config(root: &Path, cfg: &J) -> anyhow::Result<Config> {
-    let inv = root.to_str().unwrap();
+    let inv = cfg.get("inventory_path").and_then(J::as_str).unwrap_or_else(|| root.to_str().unwrap());
     if let Some(opts) = cfg.get("file_options").and_then(J::as_array) {
         // the same settings through a config file whose keys are written in the given order
         let mut m = serde_yaml::Mapping::new();
@@ -160,7 +170,7 @@ pub fn make_config(root: &Path, cfg: &J) -> anyhow::Result<Config> {
             let v: serde_yaml::Value = serde_json::from_value(kv.get(1).cloned().unwrap_or(J::Null))?;
             m.insert(serde_yaml::Value::String(k.to_string()), v);
         }
-        std::fs::write(root.join("reclass-config.yml"), serde_yaml::to_string(&serde_yaml::Value::Mapping(m))?)?;
+        std::fs::write(Path::new(inv).join("reclass-config.yml"), serde_yaml::to_string(&serde_yaml::Value::Mapping(m))?)?;
         let mut c = Config::new(Some(inv), None, None, None)?;
         c.load_from_file("reclass-config.yml", false)?;
         return Ok(c);
@@ -181,7 +191,8 @@ pub fn make_config(root: &Path, cfg: &J) -> anyhow::Result<Config> {
 }
 
 fn rel_str(root: &Path, s: &str) -> String {
-    s.replace(root.to_str().unwrap(), "<ROOT>")
+    // (with a working-directory-relative inventory the implementation names files as ./nodes/.. and ./classes/..)
+    s.replace(root.to_str().unwrap(), "<ROOT>").replace("./nodes/", "<ROOT>/nodes/").replace("./classes/", "<ROOT>/classes/")
 }
 
 fn entities_json(v: Vec<(String, PathBuf, PathBuf)>) -> J {
@@ -201,9 +212,78 @@ pub fn nodeinfo_json(root: &Path, n: &verif::NodeInfo) -> J {
     })
 }
 
+static CWD_LOCK: std::sync::Mutex<()> = std::sync::Mutex::new(());
+
+/// op `inventory`. With `watchdog_s` the work runs on its own thread and a result that does not arrive in
+/// time is reported as `{"hang": seconds}` (FIFOs of the request are then opened for writing so that the
+/// blocked reader is released). With `cwd_relative` the process changes into the scratch inventory and the
+/// implementation is given the relative path "." (serialised by a lock; all other cases use absolute paths).
 pub fn run(req: &mut J) -> Result<J, String> {
     let scratch = scratch_dir();
     let root = scratch.0.clone();
+    let cwd_guard = if req.get("cwd_relative").and_then(J::as_bool) == Some(true) {
+        let g = CWD_LOCK.lock().unwrap_or_else(|e| e.into_inner());
+        let prev = std::env::current_dir().ok();
+        // materialise first (absolute paths), then move in
+        std::fs::create_dir_all(&root).ok();
+        Some((g, prev))
+    } else {
+        None
+    };
+    let res = if let Some(secs) = req.get("watchdog_s").and_then(J::as_u64) {
+        let mut owned = req.clone();
+        let r2 = root.clone();
+        let (tx, rx) = std::sync::mpsc::channel();
+        std::thread::Builder::new()
+            .stack_size(64 << 20)
+            .spawn(move || {
+                let out = std::panic::catch_unwind(std::panic::AssertUnwindSafe(|| run_in(&mut owned, &r2)));
+                let _ = tx.send((out, owned));
+            })
+            .map_err(|e| e.to_string())?;
+        match rx.recv_timeout(std::time::Duration::from_secs(secs)) {
+            Ok((Ok(out), owned)) => {
+                *req = owned;
+                out
+            }
+            Ok((Err(p), owned)) => {
+                *req = owned;
+                let msg = p.downcast_ref::<String>().cloned().or_else(|| p.downcast_ref::<&str>().map(|s| s.to_string())).unwrap_or_default();
+                Ok(json!({"panic": msg}))
+            }
+            Err(_) => {
+                // release readers blocked on FIFOs, give the thread a moment, report the hang
+                if let Some(files) = req.get("files").and_then(J::as_array) {
+                    for f in files {
+                        if f.get("kind").and_then(J::as_str) == Some("fifo") {
+                            if let Some(rel) = f.get("path").and_then(J::as_str) {
+                                use std::os::unix::fs::OpenOptionsExt;
+                                for _ in 0..50 {
+                                    let _ = std::fs::OpenOptions::new().write(true).custom_flags(0o4000).open(root.join(rel));
+                                    if rx.recv_timeout(std::time::Duration::from_millis(100)).is_ok() {
+                                        break;
+                                    }
+                                }
+                            }
+                        }
+                    }
+                }
+                Ok(json!({"hang": secs}))
+            }
+        }
+    } else {
+        run_in(req, &root)
+    };
+    if let Some((_g, prev)) = cwd_guard {
+        if let Some(p) = prev {
+            let _ = std::env::set_current_dir(p);
+        }
+    }
+    res
+}
+
+fn run_in(req: &mut J, root_ref: &Path) -> Result<J, String> {
+    let root = root_ref.to_path_buf();
     {
         let files = req.get_mut("files").and_then(J::as_array_mut).ok_or("missing files")?;
         materialise(&root, files)?;
@@ -212,8 +292,26 @@ pub fn run(req: &mut J) -> Result<J, String> {
     std::fs::create_dir_all(root.join("classes")).ok();
     let listing = json!({"nodes": listing_json(&root.join("nodes")), "classes": listing_json(&root.join("classes"))});
     req.as_object_mut().unwrap().insert("listing".into(), listing);
-    let cfgj = req.get("config").cloned().unwrap_or(json!({}));
+    let mut cfgj = req.get("config").cloned().unwrap_or(json!({}));
+    if req.get("cwd_relative").and_then(J::as_bool) == Some(true) {
+        std::env::set_current_dir(&root).map_err(|e| format!("chdir: {e}"))?;
+        cfgj.as_object_mut().unwrap().insert("inventory_path".into(), json!("."));
+    }
     let mut obs = Map::new();
+    // `inventory_link`: the inventory is reached through a symlink (root/<link> -> root/<target>), so that a `..`
+    // in nodes_uri/classes_uri resolves differently for the OS than for a textual normalisation
+    if let Some(l) = cfgj.get("inventory_link").and_then(J::as_array).cloned() {
+        let (link, target) = (l[0].as_str().unwrap_or("current"), l[1].as_str().unwrap_or("real/inv"));
+        std::fs::create_dir_all(root.join(target)).map_err(|e| e.to_string())?;
+        let depth = link.matches('/').count();
+        let rel_target = format!("{}{}", "../".repeat(depth), target);
+        if let Some(parent) = root.join(link).parent() {
+            std::fs::create_dir_all(parent).map_err(|e| e.to_string())?;
+        }
+        let _ = std::os::unix::fs::symlink(rel_target, root.join(link));
+        let ip = root.join(link);
+        cfgj.as_object_mut().unwrap().insert("inventory_path".into(), json!(ip.to_str().unwrap()));
+    }
     let cfg = match make_config(&root, &cfgj) {
         Ok(c) => c,
         Err(e) => {
@@ -221,6 +319,11 @@ pub fn run(req: &mut J) -> Result<J, String> {
             return Ok(J::Object(obs));
         }
     };
+    if cfgj.get("inventory_link").is_some() {
+        // the model's view of "the nodes/classes directory": what the OS finds at the configured paths
+        let listing = json!({"nodes": listing_json(Path::new(&cfg.nodes_path)), "classes": listing_json(Path::new(&cfg.classes_path))});
+        req.as_object_mut().unwrap().insert("listing".into(), listing);
+    }
     let mut r = match Reclass::new_from_config(cfg) {
         Ok(r) => r,
         Err(e) => {
@@ -320,7 +423,7 @@ pub fn run(req: &mut J) -> Result<J, String> {
 
 /// Reconfiguration steps of the `lifecycle` part: applied to a live instance through the public
 /// methods, and to a fresh `Config` before construction.
-fn apply_steps_live(r: &mut Reclass, steps: &[J]) -> Vec<J> {
+fn apply_steps_live(root: &Path, r: &mut Reclass, steps: &[J]) -> Vec<J> {
     let mut out = vec![];
     for s in steps {
         if let Some(f) = s.get("set_flag").and_then(J::as_str) {
@@ -347,6 +450,13 @@ fn apply_steps_live(r: &mut Reclass, steps: &[J]) -> Vec<J> {
             match r.set_ignore_class_notfound_regexp(ps) {
                 Ok(()) => out.push(json!("ok")),
                 Err(e) => out.push(json!({"err": format!("{e}")})),
+            }
+        } else if let Some(w) = s.get("rewrite") {
+            // a file is edited in place between two renders of the same instance
+            let mut files = vec![w.clone()];
+            match materialise(root, &mut files) {
+                Ok(()) => out.push(json!("ok")),
+                Err(e) => out.push(json!({"err": e})),
             }
         } else if let Some(n) = s.get("render").and_then(J::as_str) {
             let _ = r.render_node(n);
@@ -398,7 +508,7 @@ fn render_all(root: &Path, r: &Reclass, names: &[String]) -> BTreeMap<String, J>
 /// taken before the reconfiguration must keep behaving like the original.
 fn lifecycle(root: &Path, cfgj: &J, live: &mut Reclass, names: &[String], singles: &BTreeMap<String, J>, steps: &[J]) -> J {
     let before_clone = live.clone();
-    let step_results = apply_steps_live(live, steps);
+    let step_results = apply_steps_live(root, live, steps);
     let after = render_all(root, live, names);
     let fresh = match make_config(root, cfgj) {
         Ok(mut c) => {
@@ -425,11 +535,15 @@ fn lifecycle(root: &Path, cfgj: &J, live: &mut Reclass, names: &[String], single
         }
         None => diffs.push("could not build the fresh instance".into()),
     }
-    // the clone taken before the steps still has the old settings; render it after the live one
+    // the clone taken before the steps still has the old settings; render it after the live one. What it must
+    // give is what a fresh instance with the ORIGINAL settings gives on the files as they are now (a step may
+    // have rewritten a file); without rewrites that is the first pass.
     let again = render_all(root, &before_clone, names);
+    let fresh0 = make_config(root, cfgj).ok().and_then(|c| Reclass::new_from_config(c).ok()).map(|f| render_all(root, &f, names));
+    let expect0 = fresh0.as_ref().unwrap_or(singles);
     let mut clone_diffs: Vec<String> = vec![];
     for n in names {
-        if again.get(n) != singles.get(n) {
+        if again.get(n) != expect0.get(n) {
             clone_diffs.push(format!("node {n}: a clone taken before the reconfiguration renders differently after the other instance was reconfigured and rendered"));
         }
     }
